@@ -699,9 +699,24 @@ def decision_root(body, blk):
             q = body.pred(q)[0]
             hops += 1
         if body.term(q)["t"] == "switch" and body.dominates(q, root) and len(body.succ(q)) == 2:
-            # q is part of the same && chain only if its other edge does not itself build an error/return value
-            root = q
-            continue
+            # q belongs to the same `a && b` chain only if its *other* edge joins the chain's skip edge
+            def resolve(x):
+                for _ in range(8):
+                    if body.stmts(x) and any(s_[0] == "=" and s_[1] != [0] and s_[2][0] != "use" for s_ in body.stmts(x)):
+                        break
+                    tt = body.term(x)
+                    if tt["t"] == "goto":
+                        x = tt["to"]
+                    else:
+                        break
+                return x
+            # the edge of q that leads to root
+            toward = [s_ for s_ in body.succ(q) if root in body.reachable_from(s_, avoid={q})]
+            other = [s_ for s_ in body.succ(q) if s_ not in toward]
+            skip = [s_ for s_ in body.succ(root) if blk not in body.reachable_from(s_, avoid={root})]
+            if other and skip and resolve(other[0]) == resolve(skip[0]):
+                root = q
+                continue
         break
     return root
 
